@@ -3,7 +3,7 @@
    extracted file into the current directory. *)
 From Coq Require Import Extraction ExtrOcamlBasic.
 From LV Require Import Base.Bytes Base.Utf8 Base.Base64 Model.Codec Model.Response Model.ServerInfo
-  Model.Auth Model.Client Model.Address Model.HeaderEnc Model.Body Spec.SmtpData Spec.Xtext Spec.Rfc5322 Spec.Rfc2047 Spec.Rfc2231 Spec.Cte.
+  Model.Auth Model.Client Model.Address Model.HeaderEnc Model.Body Model.Mailbox Model.Headers Spec.SmtpData Spec.Xtext Spec.Rfc5322 Spec.Rfc2047 Spec.Rfc2231 Spec.Cte.
 Extraction Language OCaml.
 Extraction "model.ml"
   Codec.encode Codec.wire SmtpData.server_data SmtpData.recv
@@ -18,4 +18,7 @@ Extraction "model.ml"
   Rfc5322.header_block Rfc5322.unfold Rfc5322.lines_of Rfc5322.no_bare_crlf
   Rfc2047.decode_unstructured Rfc2047.decode_phrase Rfc2047.decode_word Rfc2231.decode_disposition
   Body.body_new Body.body_new_with_encoding Body.in_place_crlf Body.qp_encode Body.b64_wrap Body.choose
-  Cte.crlf_spec Cte.qp_decode Cte.b64_body_decode Cte.sevenbit_ok Cte.qp_lines_ok Cte.b64_lines_ok.
+  Cte.crlf_spec Cte.qp_decode Cte.b64_body_decode Cte.sevenbit_ok Cte.qp_lines_ok Cte.b64_lines_ok
+  Mailbox.show_mailbox Mailbox.show_mailboxes Mailbox.parse_mailbox_raw Mailbox.parse_mailbox_list_raw
+  Mailbox.mailbox_from_str Mailbox.mailboxes_from_str
+  Headers.run_hops Headers.show_headers.
